@@ -8,8 +8,8 @@ the consuming check compares with what pyanalyze actually reports and counts):
 * 3-12 diagnostics, at least 3 distinct error codes;
 * a diagnostic on physical line 1 (or on line 2 when the file starts with a `#!` header, ~12 %) and one on the
   last physical line; ~20 % of programs have no trailing newline at EOF;
-* lines carrying several diagnostics (same and different codes, two statements on one line, two codes on the
-  same AST node), diagnostics inside multi-line calls / list displays / multi-line `def` signatures, after a
+* lines carrying several diagnostics (same and different codes, two statements on one line, two codes at the
+  same position, two codes on the very same AST node), diagnostics inside multi-line calls / list displays / multi-line `def` signatures, after a
   backslash continuation and after a multi-line string, inside loops (visited twice by pyanalyze), try/with/if,
   nested functions and methods;
 * blank lines, own-line comments and trailing comments sprinkled in (never ignore comments);
@@ -309,6 +309,13 @@ def _attempt(rng: random.Random):
         last_indented = True
     budget = target - len(expected) - len(last_codes)
 
+    # a module-level class whose method carries two codes on the *same AST node* (method_first_arg + missing_return)
+    class_block: List[str] = []
+    if budget >= 2 and rng.random() < 0.25:
+        budget -= 2
+        expected += ["method_first_arg", "missing_return"]
+        class_block = [f"class {g.fresh('K')}:", "    def m() -> int:", "        pass", ""]
+
     # body statements
     stmts: List[Tuple[List[str], List[str], bool]] = []
     guard = 0
@@ -329,6 +336,8 @@ def _attempt(rng: random.Random):
         groups[rng.randrange(nfun)].append(s)
     for gi, grp in enumerate(groups):
         is_last_fn = gi == nfun - 1
+        if class_block and gi == nfun // 2:
+            lines.extend(class_block)
         in_class = rng.random() < 0.2
         head: List[str] = []
         body: List[str] = []
